@@ -158,7 +158,14 @@ class PcaChain(MetropolisChain):
         for v, p in zip(self.directions, self.params):
             while True:
                 prop = theta0 + v * p.sigma * self.rng.normal()
-                prop = self.process_proposal(prop)
+                if self.bounds is not None and not self.bounds.inside(prop):
+                    # the density is zero outside the bounds: the proposal is rejected.
+                    # (Folding it back coordinate by coordinate, as for axis-parallel
+                    # steps, takes it off the line through theta0 along v - a move that
+                    # cannot be reversed by a step along v - and the chain then no
+                    # longer leaves the target distribution invariant.)
+                    p.submit_accept_prob(0.0)
+                    continue
                 p_new = self.posterior(prop) * self.inv_temp
 
                 if p_new > p_old:
